@@ -248,6 +248,23 @@ fn c04_ams_identity_n1() {
 fn c04_t_ams_identity_n2() {
     ams_identity::<2>();
 }
+/// A pending random choice is part of what influences future behaviour: two states that differ
+/// ONLY in whether the actor has a pending choice must be different states with different streams.
+/// (On the pinned tree they are not: KNOWN FINDING, see known_findings.json / DESIGN 5.4.)
+#[kani::proof]
+#[kani::unwind(4)]
+fn c04_ams_random_choice_n1() {
+    let st: u8 = kani::any();
+    let h: u8 = kani::any();
+    let s1 = state_n::<1>([st, 0, 0], [false, false, false], h);
+    let mut s2 = state_n::<1>([st, 0, 0], [false, false, false], h);
+    let r: u8 = kani::any();
+    s2.random_choices[0].insert(String::new(), vec![r]);
+    assert!(s1 != s2, "C04 states differing only in a pending random choice are different states (==)");
+    assert!(!rec_of(&s1).same_bytes(&rec_of(&s2)), "C04 states differing only in a pending random choice feed different byte streams");
+    kani::cover!(true, "random-choice identity reached");
+}
+
 /// Vacuity twin.
 #[kani::proof]
 #[kani::unwind(3)]
